@@ -301,4 +301,52 @@ theorem readTimestamp_printTime (f : List Tok) (h : Lossless f) (t : Stamp) (ht 
   rw [precompile_eq f h]
   exact readLoop_printTime f t ht h.1 [] epoch
 
+/-- does the format contain a code with letter `l`? -/
+def hasL (f : List Tok) (l : Char) : Bool := (codeList f).any (fun c => c.2 == l)
+
+/-- the stamp reduced to the fields a format mentions (the others keep the values of `ObsTime()`) -/
+def project (f : List Tok) (t : Stamp) : Stamp :=
+  ⟨⟨if hasL f 'Y' then t.d.year else 1970, if hasL f 'M' then t.d.month else 1, if hasL f 'D' then t.d.day else 1,
+    if hasL f 'h' then t.d.hour else 0, if hasL f 'm' then t.d.min else 0, if hasL f 's' then t.d.sec else 0⟩,
+   if hasL f 'z' then t.ms else 0⟩
+
+theorem hasL_lit (c : Char) (r : List Tok) (X : Char) : hasL (Tok.lit c :: r) X = hasL r X := rfl
+theorem hasL_code (w : Nat) (l : Char) (r : List Tok) (X : Char) :
+    hasL (Tok.code w l :: r) X = (l == X || hasL r X) := by simp [hasL, codeList]
+theorem hasL_nil (X : Char) : hasL [] X = false := rfl
+
+theorem applyCodes_eq (f : List Tok) (t st : Stamp) (hf : ∀ c ∈ codeList f, c ∈ fullCodes) :
+    applyCodes f t st =
+      ⟨⟨if hasL f 'Y' then t.d.year else st.d.year, if hasL f 'M' then t.d.month else st.d.month,
+        if hasL f 'D' then t.d.day else st.d.day, if hasL f 'h' then t.d.hour else st.d.hour,
+        if hasL f 'm' then t.d.min else st.d.min, if hasL f 's' then t.d.sec else st.d.sec⟩,
+       if hasL f 'z' then t.ms else st.ms⟩ := by
+  induction f generalizing st with
+  | nil => simp [applyCodes, hasL_nil]
+  | cons tk r ih =>
+    cases tk with
+    | lit c =>
+      have := ih st (fun c hc => hf c (by simpa [codeList] using hc))
+      simp only [applyCodes, hasL_lit]
+      exact this
+    | code w l =>
+      have hmem : (w, l) ∈ fullCodes := hf _ (by simp [codeList])
+      have ih' := fun st => ih st (fun c hc => hf c (by simp [codeList, hc]))
+      simp only [fullCodes, List.mem_cons, Prod.mk.injEq, List.not_mem_nil, or_false] at hmem
+      simp only [applyCodes, ih', hasL_code]
+      rcases hmem with ⟨rfl, rfl⟩ | ⟨rfl, rfl⟩ | ⟨rfl, rfl⟩ | ⟨rfl, rfl⟩ | ⟨rfl, rfl⟩ | ⟨rfl, rfl⟩ | ⟨rfl, rfl⟩ <;>
+        simp [setField]
+
+theorem applyCodes_epoch (f : List Tok) (t : Stamp) (hf : ∀ c ∈ codeList f, c ∈ fullCodes) :
+    applyCodes f t epoch = project f t := by
+  rw [applyCodes_eq f t epoch hf]; rfl
+
+/-- a format that names the six calendar fields -/
+def FullDate (f : List Tok) : Prop :=
+  hasL f 'Y' = true ∧ hasL f 'M' = true ∧ hasL f 'D' = true ∧ hasL f 'h' = true ∧ hasL f 'm' = true ∧ hasL f 's' = true
+
+theorem project_full (f : List Tok) (t : Stamp) (h : FullDate f) : (project f t).d = t.d := by
+  obtain ⟨h1, h2, h3, h4, h5, h6⟩ := h
+  simp [project, h1, h2, h3, h4, h5, h6]
+
 end TV.TextIO
